@@ -1,4 +1,5 @@
 import CattrsModel.Lemmas.RoundTrip
+import CattrsModel.Lemmas.RoundTripInterp
 import CattrsModel.Lemmas.ModesAgree
 /-!
 # C01 — round trip: structure(unstructure(x, T), T) == x
@@ -13,7 +14,18 @@ Scope predicates (all decidable, all satisfied by the generated cases — see th
 * `Ty.supG td`      the supported constructors of the property statement: no `Any`; set elements and mapping
                     keys with hashable-leaf encodings (anything else is the recorded finding F10);
                     `td` = "TypedDicts allowed", true exactly when the structuring converter is a `Converter`;
+* `Ty.supB`          BaseConverter's documented support inside that scope (data *unstructured* by a BaseConverter):
+                    additionally no TypedDict, no `Annotated` (no BaseConverter hook pair exists for either), NewType
+                    and heterogeneous tuples over primitives only (BaseConverter passes their values through
+                    unchanged), `Literal` over leaf values (the model's `Literal` does not cover enum members);
+* `World.supBOn S`   the same world-level demand (`World.supB`: every field typed and in `Ty.supB`) restricted to a
+                    closed set `S` of classes (`C01_roundtrip_interp_on`);
+* `Ty.supPair cu cs` = `supG cs.gen` when `cu` is a Converter, `supB` when `cu` is a BaseConverter;
 * `conf w T x`, `x.valid`   x is a value of T (an existing Python object: dict keys duplicate-free).
+
+`C01_roundtrip` (Converter-unstructured data) and `C01_roundtrip_interp` (BaseConverter-unstructured data) are the
+two halves of the statement; `C01_roundtrip_full` is their union over all four pairs of converter classes and
+`C01_roundtrip_cross` the special case of the common support.
 -/
 namespace CattrsModel
 
@@ -41,6 +53,67 @@ theorem C01_roundtrip_same (w : World) (cfg : Cfg) (t : Ty) (x : Obj)
     convStructure w cfg t (convUnstructure w cfg t x) = some x :=
   C01_roundtrip w cfg cfg t x hgen rfl hforbid hw hwe (by rw [hgen]; exact hws) (by rw [hgen]; exact hs) hc hv
 
+/-- **Round trip, data unstructured by a `BaseConverter`.**  A `BaseConverter` unstructures the components of
+collections, mappings and optionals by their run-time class, keeps container classes, passes NewType values and
+heterogeneous tuples through, and (dict strategy) also emits `init=False` attributes.  For every class table, type
+in its support, value, strategy, every combination of validation modes, and for the structuring converter being
+either a `BaseConverter` or a `Converter` with the same strategy (forbid_extra_keys off):
+`structure(unstructure(x, T), T)` returns `x`. -/
+theorem C01_roundtrip_interp (w : World) (cu cs : Cfg) (t : Ty) (x : Obj)
+    (hgen : cu.gen = false) (hstrat : cs.tupleStrat = cu.tupleStrat) (hforbid : cs.forbid = false)
+    (hw : w.WF) (hwe : w.WFE) (hws : w.supB) (hs : t.supB = true)
+    (hc : conf w t x = true) (hv : x.valid = true) :
+    convStructure w cs t (convUnstructure w cu t x) = some x := by
+  unfold convStructure convUnstructure
+  have key := roundtrip_interp w cu.core cs.core (by simpa [Cfg.core] using hgen) (by simpa [Cfg.core] using hstrat)
+    (by simpa [Cfg.core] using hforbid) hw hwe hws t x hs hc hv
+  split
+  · rw [modes_agree]; exact key
+  · exact key
+
+/-- The same with the support hypothesis demanded only of the classes the type can reach: `S` is any set of
+classes that contains those mentioned by `t` and is closed under "mentioned by a field type of a member".  Classes of
+the table outside `S` (say, one with an `Annotated` field, which only a `Converter` supports) are unconstrained. -/
+theorem C01_roundtrip_interp_on (w : World) (cu cs : Cfg) (t : Ty) (x : Obj) (S : Nat → Prop)
+    (hgen : cu.gen = false) (hstrat : cs.tupleStrat = cu.tupleStrat) (hforbid : cs.forbid = false)
+    (hw : w.WF) (hwe : w.WFE) (hws : w.supBOn S) (hs : t.supB = true) (hr : ∀ c ∈ t.refs, S c)
+    (hc : conf w t x = true) (hv : x.valid = true) :
+    convStructure w cs t (convUnstructure w cu t x) = some x := by
+  unfold convStructure convUnstructure
+  have key := roundtrip_interp_on w cu.core cs.core (by simpa [Cfg.core] using hgen) (by simpa [Cfg.core] using hstrat)
+    (by simpa [Cfg.core] using hforbid) hw hwe S hws t x hs hr hc hv
+  split
+  · rw [modes_agree]; exact key
+  · exact key
+
+/-- **Round trip, the whole statement**: any unstructuring converter class, any structuring converter class, same
+strategy, any combination of validation modes, each unstructuring class within its documented support. -/
+theorem C01_roundtrip_full (w : World) (cu cs : Cfg) (t : Ty) (x : Obj)
+    (hstrat : cs.tupleStrat = cu.tupleStrat) (hforbid : cs.forbid = false)
+    (hw : w.WF) (hwe : w.WFE) (hws : w.supPair cu cs) (hs : t.supPair cu cs = true)
+    (hc : conf w t x = true) (hv : x.valid = true) :
+    convStructure w cs t (convUnstructure w cu t x) = some x := by
+  unfold convStructure convUnstructure
+  have key := roundtrip_full w cu.core cs.core (by simpa [Cfg.core] using hstrat)
+    (by simpa [Cfg.core] using hforbid) hw hwe hws t x hs hc hv
+  split
+  · rw [modes_agree]; exact key
+  · exact key
+
+/-- **Crossing the two converter classes** inside their common support (`Ty.supB`): data unstructured by either
+class is structured back by either class. -/
+theorem C01_roundtrip_cross (w : World) (cu cs : Cfg) (t : Ty) (x : Obj)
+    (hstrat : cs.tupleStrat = cu.tupleStrat) (hforbid : cs.forbid = false)
+    (hw : w.WF) (hwe : w.WFE) (hws : w.supB) (hs : t.supB = true)
+    (hc : conf w t x = true) (hv : x.valid = true) :
+    convStructure w cs t (convUnstructure w cu t x) = some x := by
+  unfold convStructure convUnstructure
+  have key := roundtrip_cross w cu.core cs.core (by simpa [Cfg.core] using hstrat)
+    (by simpa [Cfg.core] using hforbid) hw hwe hws t x hs hc hv
+  split
+  · rw [modes_agree]; exact key
+  · exact key
+
 /-! Non-vacuity: a recursive-looking world (a class holding a list of optional class instances, a
 TypedDict, an enum-keyed dict) with a value satisfying every hypothesis. -/
 section Examples
@@ -62,6 +135,156 @@ example : conf rtWorld (.td 1) rtValue = true := by
 example : rtValue.valid = true := by
   simp [rtValue, Obj.valid, Obj.validKV, Obj.validL, Obj.validF, keysOf, nodupPy, Obj.memPy]
 example : (Ty.td 1).supG true = true := by simp [Ty.supG]
+
+/-! Non-vacuity for BaseConverter-unstructured data: `rtWorld` without the TypedDict.  Class 0 has an `init=False`
+attribute (emitted by the interpretive dict hook, ignored by structuring), a set of enum members and a NewType
+over `int`; class 1 holds a list of optional instances of class 0, an enum-keyed mapping of deques and a
+heterogeneous tuple of primitives.  Every hypothesis of `C01_roundtrip_interp` holds, and the conclusion is
+instantiated for a `BaseConverter` feeding a `Converter` in detailed mode. -/
+def rtWorldB : World :=
+  { classes :=
+      [ { kind := .attrs, frozen := false, fields :=
+            [ { name := "a", alias := "a", ty := some (.wrap .newtype .int), dflt := .none, init := true, required := true },
+              { name := "t", alias := "t", ty := some (.coll .set (.enum 0)), dflt := .factory (.coll .set []), init := true, required := true },
+              { name := "z", alias := "z", ty := some .int, dflt := .const (.int 7), init := false, required := true } ] },
+        { kind := .dataclass, frozen := false, fields :=
+            [ { name := "k", alias := "k", ty := some (.coll .list (.opt (.cls 0))), dflt := .none, init := true, required := true },
+              { name := "m", alias := "m", ty := some (.map .dict (.enum 0) (.coll .deque .str)), dflt := .none, init := true, required := true },
+              { name := "p", alias := "p", ty := some (.tupleHet [.int, .str]), dflt := .none, init := true, required := true } ] } ],
+    enums := [[.int 1, .str "x"]] }
+
+def rtValueB : Obj :=
+  .inst 1 [("k", .coll .list [.none, .inst 0 [("a", .int 3), ("t", .coll .set [.enumM 0 1, .enumM 0 0]), ("z", .int 7)]]),
+           ("m", .dict [(.enumM 0 1, .coll .deque [.str "b"])]),
+           ("p", .coll .tuple [.int 1, .str "q"])]
+
+theorem rtWorldB_WF : rtWorldB.WF := by
+  constructor
+  · intro c f hf d hd
+    match c with
+    | 0 =>
+      simp [rtWorldB, World.fields] at hf
+      rcases hf with rfl | rfl | rfl
+      · simp [Dflt.value?] at hd
+      · simp [Dflt.value?] at hd; subst hd
+        simp [fconf, conf, confL, SK.structTo, CK.isSet, nodupPy, hashableL]
+      · simp [Dflt.value?] at hd; subst hd; simp [fconf, conf]
+    | 1 =>
+      simp [rtWorldB, World.fields] at hf
+      rcases hf with rfl | rfl | rfl <;> simp [Dflt.value?] at hd
+    | n + 2 => simp [rtWorldB, World.fields] at hf
+  · intro c
+    match c with
+    | 0 => simp [rtWorldB, World.fields]
+    | 1 => simp [rtWorldB, World.fields]
+    | n + 2 => simp [rtWorldB, World.fields]
+
+theorem rtWorldB_WFE : rtWorldB.WFE := by
+  constructor
+  · intro e v hv
+    match e with
+    | 0 =>
+      simp [rtWorldB, World.members] at hv
+      rcases hv with rfl | rfl <;> simp [Obj.isLeaf]
+    | n + 1 => simp [rtWorldB, World.members] at hv
+  · intro e
+    match e with
+    | 0 => simp [rtWorldB, World.members, nodupPy, Obj.memPy, Obj.pyEq, Obj.num2?]
+    | n + 1 => simp [rtWorldB, World.members, nodupPy]
+
+theorem rtWorldB_supB : rtWorldB.supB := by
+  intro c f hf
+  match c with
+  | 0 =>
+    simp [rtWorldB, World.fields] at hf
+    rcases hf with rfl | rfl | rfl <;> simp [Ty.supB, Ty.isPrimLeaf, Ty.hashPrim, SK.structTo, CK.isSet]
+  | 1 =>
+    simp [rtWorldB, World.fields] at hf
+    rcases hf with rfl | rfl | rfl <;> simp [Ty.supB, Ty.isPrimLeaf, Ty.hashPrim, SK.structTo, CK.isSet]
+  | n + 2 => simp [rtWorldB, World.fields] at hf
+
+theorem rtValueB_conf : conf rtWorldB (.cls 1) rtValueB = true := by
+  simp [rtValueB, rtWorldB, conf, confL, confF, confT, confKV, World.fields, World.members, World.frozen, keysOf,
+    Obj.pyEq, Obj.num2?, SK.structTo, CK.isSet, nodupPy, Obj.memPy, hashableL, hashable, Dflt.value?]
+
+theorem rtValueB_valid : rtValueB.valid = true := by
+  simp [rtValueB, Obj.valid, Obj.validKV, Obj.validL, Obj.validF, keysOf, nodupPy, Obj.memPy]
+
+/-- BaseConverter (dict strategy, fast) -> Converter (dict strategy, detailed validation) -/
+example : convStructure rtWorldB ⟨true, false, true, false⟩ (.cls 1)
+    (convUnstructure rtWorldB ⟨false, false, false, false⟩ (.cls 1) rtValueB) = some rtValueB :=
+  C01_roundtrip_interp rtWorldB ⟨false, false, false, false⟩ ⟨true, false, true, false⟩ (.cls 1) rtValueB
+    rfl rfl rfl rtWorldB_WF rtWorldB_WFE rtWorldB_supB (by simp [Ty.supB]) rtValueB_conf rtValueB_valid
+
+/-- BaseConverter (tuple strategy) -> BaseConverter (tuple strategy, detailed validation), through the full statement -/
+example : convStructure rtWorldB ⟨false, true, true, false⟩ (.cls 1)
+    (convUnstructure rtWorldB ⟨false, true, false, false⟩ (.cls 1) rtValueB) = some rtValueB :=
+  C01_roundtrip_full rtWorldB ⟨false, true, false, false⟩ ⟨false, true, true, false⟩ (.cls 1) rtValueB
+    rfl rfl rtWorldB_WF rtWorldB_WFE (by simpa [World.supPair] using rtWorldB_supB) (by simp [Ty.supPair, Ty.supB])
+    rtValueB_conf rtValueB_valid
+
+/-! Non-vacuity of the `_on` form: the same table plus a class with an `Annotated` field (Converter-only, so
+`World.supB` fails for the table as a whole); the value's type reaches classes 0 and 1 only. -/
+def rtWorldB' : World :=
+  { rtWorldB with classes := rtWorldB.classes ++
+      [ { kind := .attrs, frozen := false, fields :=
+            [ { name := "n", alias := "n", ty := some (.wrap .annotated .int), dflt := .none, init := true, required := true } ] } ] }
+
+theorem rtWorldB'_WF : rtWorldB'.WF := by
+  constructor
+  · intro c f hf d hd
+    match c with
+    | 0 =>
+      simp [rtWorldB', rtWorldB, World.fields] at hf
+      rcases hf with rfl | rfl | rfl
+      · simp [Dflt.value?] at hd
+      · simp [Dflt.value?] at hd; subst hd
+        simp [fconf, conf, confL, SK.structTo, CK.isSet, nodupPy, hashableL]
+      · simp [Dflt.value?] at hd; subst hd; simp [fconf, conf]
+    | 1 =>
+      simp [rtWorldB', rtWorldB, World.fields] at hf
+      rcases hf with rfl | rfl | rfl <;> simp [Dflt.value?] at hd
+    | 2 =>
+      simp [rtWorldB', rtWorldB, World.fields] at hf
+      subst hf; simp [Dflt.value?] at hd
+    | n + 3 => simp [rtWorldB', rtWorldB, World.fields] at hf
+  · intro c
+    match c with
+    | 0 => simp [rtWorldB', rtWorldB, World.fields]
+    | 1 => simp [rtWorldB', rtWorldB, World.fields]
+    | 2 => simp [rtWorldB', rtWorldB, World.fields]
+    | n + 3 => simp [rtWorldB', rtWorldB, World.fields]
+
+example : ¬ rtWorldB'.supB := by
+  intro h
+  obtain ⟨t, ht, hs⟩ := h 2 { name := "n", alias := "n", ty := some (.wrap .annotated .int), dflt := .none, init := true, required := true }
+    (by simp [rtWorldB', rtWorldB, World.fields])
+  simp at ht; subst ht
+  simp [Ty.supB, Ty.isPrimLeaf] at hs
+
+theorem rtWorldB'_supBOn : rtWorldB'.supBOn (fun c => c < 2) := by
+  constructor
+  intro c hc f hf
+  match c with
+  | 0 =>
+    simp [rtWorldB', rtWorldB, World.fields] at hf
+    rcases hf with rfl | rfl | rfl <;>
+      simp [Ty.supB, Ty.isPrimLeaf, Ty.hashPrim, SK.structTo, CK.isSet, Ty.refs]
+  | 1 =>
+    simp [rtWorldB', rtWorldB, World.fields] at hf
+    rcases hf with rfl | rfl | rfl <;>
+      simp [Ty.supB, Ty.isPrimLeaf, Ty.hashPrim, SK.structTo, CK.isSet, Ty.refs, Ty.refsL]
+  | n + 2 => have : n + 2 < 2 := hc; omega
+
+example : convStructure rtWorldB' ⟨false, false, true, false⟩ (.cls 1)
+    (convUnstructure rtWorldB' ⟨false, false, false, false⟩ (.cls 1) rtValueB) = some rtValueB :=
+  C01_roundtrip_interp_on rtWorldB' ⟨false, false, false, false⟩ ⟨false, false, true, false⟩ (.cls 1) rtValueB (fun c => c < 2)
+    rfl rfl rfl rtWorldB'_WF
+    ⟨fun e v hv => rtWorldB_WFE.enumLeaf e v hv, fun e => rtWorldB_WFE.enumDistinct e⟩
+    rtWorldB'_supBOn (by simp [Ty.supB]) (by simp [Ty.refs])
+    (by simp [rtValueB, rtWorldB', rtWorldB, conf, confL, confF, confT, confKV, World.fields, World.members, World.frozen,
+          keysOf, Obj.pyEq, Obj.num2?, SK.structTo, CK.isSet, nodupPy, Obj.memPy, hashableL, hashable, Dflt.value?])
+    rtValueB_valid
 end Examples
 
 end CattrsModel
